@@ -16,7 +16,7 @@ import (
 
 // C17 — schema guard (DESIGN 4/C17).
 
-const c17ShapePairs = 9
+const c17ShapePairs = 12
 
 func init() {
 	drivers["C17"] = &driver{cases: func(t string) int {
@@ -84,6 +84,16 @@ type shapeFactory struct {
 	name string
 	v1   func(i int) sod.Object
 	v2   func(uuid string) sod.Object
+}
+
+type c17EP struct {
+	Host string
+	Port int
+}
+
+type c17EP2 struct {
+	Host string
+	Port string
 }
 
 func shapePairs() []shapeFactory {
@@ -222,6 +232,60 @@ func shapePairs() []shapeFactory {
 			s.Initialize(u)
 			return s
 		}),
+		// two fields of one struct type: the second one must be described (and guarded) as well
+		{name: "twin-struct-second-added", v1: func(i int) sod.Object {
+			type Shape struct {
+				sod.Item
+				Name string `sod:"index"`
+				Src  c17EP
+			}
+			return &Shape{Name: fmt.Sprint("n", i), Src: c17EP{"h", i}}
+		}, v2: func(u string) sod.Object {
+			type Shape struct {
+				sod.Item
+				Name     string `sod:"index"`
+				Src, Dst c17EP
+			}
+			s := &Shape{Name: "n"}
+			s.Initialize(u)
+			return s
+		}},
+		{name: "twin-struct-second-removed", v1: func(i int) sod.Object {
+			type Shape struct {
+				sod.Item
+				Name     string `sod:"index"`
+				Src, Dst c17EP
+			}
+			return &Shape{Name: fmt.Sprint("n", i), Src: c17EP{"h", i}, Dst: c17EP{"g", i}}
+		}, v2: func(u string) sod.Object {
+			type Shape struct {
+				sod.Item
+				Name string `sod:"index"`
+				Src  c17EP
+			}
+			s := &Shape{Name: "n"}
+			s.Initialize(u)
+			return s
+		}},
+		{name: "twin-struct-second-retyped", v1: func(i int) sod.Object {
+			type Shape struct {
+				sod.Item
+				Name string `sod:"index"`
+				Src  c17EP
+				Dst  *c17EP
+			}
+			return &Shape{Name: fmt.Sprint("n", i), Src: c17EP{"h", i}, Dst: &c17EP{"g", i}}
+		}, v2: func(u string) sod.Object {
+			type Shape struct {
+				sod.Item
+				Name string `sod:"index"`
+				Src  c17EP
+				Dst  *c17EP2
+			}
+			s := &Shape{Name: "n"}
+			s.Initialize(u)
+			return s
+		}},
 		mk("field-renamed", func(u string) sod.Object {
 			type Shape struct {
 				sod.Item
@@ -386,6 +450,15 @@ func runC17Settings(k int, rng *Rng) CaseResult {
 	w := NewWorld("C17", rng, cfg, caseDir(k, "c17c"))
 	w.storeWant = false
 	defer w.Cleanup()
+	// the descriptors the guard is built on name every describable field of the struct (a field
+	// without descriptor can change shape unnoticed)
+	fds := sod.FieldDescriptors(&Rec{})
+	for _, f := range recFields {
+		if _, ok := fds[f.Path]; f.Desc && !ok {
+			w.fail("descriptors-incomplete", "FieldDescriptors", "-", fmt.Sprintf("field %s (%s) of the struct has no descriptor: the guard cannot see it change", f.Path, f.Kind))
+			return w.finish(nil, true, nil)
+		}
+	}
 	if !w.OpenCreate() {
 		return w.finish(nil, false, nil)
 	}
@@ -395,6 +468,20 @@ func runC17Settings(k int, rng *Rng) CaseResult {
 	}
 	if rng.Bool() {
 		w.Reopen(false)
+	}
+	// what the guard compares: the stored descriptors name every describable field of the struct
+	// (a field without descriptor can change shape unnoticed)
+	var sch *sod.Schema
+	var serr error
+	w.call("Schema", func() { sch, serr = w.db.Schema(&Rec{}) })
+	if serr == nil && sch != nil && !w.failed() {
+		for _, f := range recFields {
+			if _, ok := sch.Fields[f.Path]; f.Desc && !ok {
+				w.fail("descriptors-incomplete", "Schema", "-", fmt.Sprintf("field %s (%s) of the stored struct has no descriptor: the guard cannot see it change", f.Path, f.Kind))
+				break
+			}
+		}
+		stats.Count("descriptor_completeness_checks", 1)
 	}
 	// asynchronous mode: writes stay pending (the flusher is parked on the
 	// virtual clock and is not ticked): a refused Create must not flush them
